@@ -920,10 +920,10 @@ func AdoptSession(p Persistence, c *Config) (client *Client, warn []error, fatal
 	}
 
 	// instantiate client
-	if n := len(publishAtLeastOnceKeys); n > c.AtLeastOnceMax {
+	if n := len(publishAtLeastOnceKeys); n > effectiveMax(c.AtLeastOnceMax) {
 		return nil, warn, fmt.Errorf("mqtt: %d AtLeastOnceMax is less than the %d pending in session", c.AtLeastOnceMax, n)
 	}
-	if n := len(publishExactlyOnceKeys) + len(publishReleaseKeys); n > c.ExactlyOnceMax {
+	if n := len(publishExactlyOnceKeys) + len(publishReleaseKeys); n > effectiveMax(c.ExactlyOnceMax) {
 		return nil, warn, fmt.Errorf("mqtt: %d ExactlyOnceMax is less than the %d pending in session", c.ExactlyOnceMax, n)
 	}
 	// New records must order after the ones found.
